@@ -495,6 +495,19 @@ def gen_c09(rng, tier):
             big = "y" * rng.choice([700, 1500, 3000])
             ops += ["P:a:4.13:J%s~%s:-" % (json.dumps(big).encode().hex(), big.encode().hex()), "G:a:4.13"]
         mk(cases, "rw", ops, opts="nacc=%d fsz=%d" % (rng.choice([0, 0, 0, 12]), rng.choice([1024, 1024, 300, 100, 37])))
+    # bridges with two-digit accessory ids: ids whose digits can be split in more than one way (1.19 / 11.9, 1.12 / 11.2, 2.19 / 21.9)
+    for i in range(3 if tier == "quick" else 30):
+        ops = ["N:a", "S:a:c0:ok", "V:a:c0:ok"]
+        pool = ["1.19", "11.9", "1.12", "11.2", "1.17", "11.7", "2.19", "21.9", "1.110", "11.10", "12.9", "1.29", "2.9", "3.12"]
+        for _ in range(rng.randrange(3, 8)):
+            r = rng.random()
+            if r < 0.35:
+                ops.append("P:a:%s:%s:-" % (rng.choice(["11.9", "12.9", "21.9", "2.9"]), rng.choice(["true", "false"])))
+            elif r < 0.45:
+                ops.append("L:%s:%s" % (rng.choice(["11.9", "21.9"]), rng.choice(["true", "false"])))
+            ops.append("G:a:" + ",".join(rng.sample(pool, rng.randrange(1, 6))))
+        ops.append("A:a")
+        mk(cases, "rw", ops, opts="nacc=20")
     # two controllers reading at the same time (a database of many chunks against long /characteristics answers)
     for i in range(2 if tier == "quick" else 12):
         mk(cases, "race", ["N:a", "S:a:c0:ok", "V:a:c0:ok", "N:b", "V:b:c0:ok", "RACE:a:b:%d" % (40 if tier == "quick" else 150)], opts="nacc=%d" % rng.choice([24, 40]))
